@@ -83,8 +83,8 @@ CHECKS = {
          '2-3 operations run concurrently on one connected device. Sync: each in its own thread, baton passed only at scheduling points (lock acquire/release, transport calls; line-level '
          'inside the I/O manager, packet store, _open and filesync helpers), ALL schedules up to preemption bound 2 (thorough 3; lines 1, thorough 2 on one scenario) x all device wire orders. '
          'Async: every order in which pending transport I/O can complete (complete). Each result must equal the solo result and the device-side record, the host byte stream must parse, every '
-         'store access / transport call must happen under the right lock, no deadlock/livelock/timeout. Known finding K1 (CLSE of a live stream dropped) is matched by a structured signature.',
-         'trusts adbsim; SC at line granularity (GIL); K1 forgiveness only for owners of a dropped CLSE ending in a timeout class', '4/C06'),
+         'store access / transport call must happen under the right lock, no deadlock/livelock/timeout. (Finding K1, a CLSE of a live stream dropped by the store, was found by this check and is repaired in /repo.)',
+         'trusts adbsim; SC at line granularity (GIL)', '4/C06'),
  'C14': ('model_checking', 'stateless preemption-bounded exploration with line- and bytecode-level scheduling points inside id allocation',
          '2-3 threads open streams that stay live, id counter started at 0, 1, 2^32-3..2^32-1; scheduling points before every line (and, in a separate part, every bytecode) of _open and '
          '_AdbTransactionInfo.__init__ plus lock/transport points; all schedules to preemption bound 2 (thorough 3); asyncio tasks under every I/O completion order; sequential histories across '
